@@ -127,7 +127,7 @@ Qed.
 
 (* DESCRIPTORS, EVERY HISTORY, EVERY FAULT PLAN.  Any sequence of calls on a handle made by
    reproc_new -- starts that fail, starts that succeed, restarts after a failure, reads, writes,
-   closes, polls, waits, terminate, kill, stop sequences, in any order, each under any fault plan
+   closes, polls, drains (any sink behaviour), waits, terminate, kill, stop sequences, in any order, each under any fault plan
    (failures of close itself included: close releases the slot whatever it reports) and whatever
    the children do -- followed by destroy leaves the caller's descriptor table EXACTLY as it was
    before the first call: same descriptors, same objects, same flags.  In particular nothing the
@@ -142,8 +142,8 @@ Proof. exact history_restores_descriptor_table. Qed.
 Print Assumptions C05_history_restores_descriptor_table.
 
 (* THE SAME FOR ANY NUMBER OF HANDLES: reproc_new at any point (allocation failures included),
-   calls on the live handles interleaved in any order, destroys in any order, every fault plan;
-   once the handles still alive have been destroyed as well, the table is what it was.  In between
+   calls on the live handles interleaved in any order, whole reproc_run_ex calls in between, destroys
+   in any order, every fault plan; once the handles still alive have been destroyed as well, the table is what it was.  In between
    (invariant MI) every descriptor open beyond the initial table is a pipe end of exactly one live
    handle: no handle ever closes or re-flags another handle's or the caller's descriptors. *)
 Theorem C05_multi_history_restores_descriptor_table : forall (ck : rp -> MW unit) ms w u w',
@@ -216,7 +216,7 @@ Print Assumptions C05_multi_history_releases_memory.
    faults and with a failure injected into the start: the history runs to its end, the table had
    grown in between (four descriptors after the successful start), and is back to its one entry *)
 Definition C05_ex_ops : list hop :=
-  [HStart (Some [[46; 47; 116]]) C05_ex_opts 0; HWait 1000; HClose REPROC_STREAM_IN;
+  [HStart (Some [[46; 47; 116]]) C05_ex_opts 0; HDrain 50 {| sk_out := []; sk_err := []; sk_calls := [] |}; HWait 1000; HClose REPROC_STREAM_IN;
    HStart (Some [[46; 47; 116]]) C05_ex_opts 0; HStop {| st_first := noop; st_second := noop; st_third := noop |}].
 Definition C05_ex_keys (w : world) : list Z := map fst (map_to_list (pr_fds (curp w))).
 Definition C05_ex_hist (faults : list (Z * positive)) : bool :=
@@ -234,7 +234,8 @@ Definition C05_ex_mem (faults : list (Z * positive)) : bool :=
   | _ => false end.
 Definition C05_ex_mops : list mop :=
   [MNew; MNew; MCall 0 (HStart (Some [[46; 47; 116]]) C05_ex_opts 0); MCall 1 (HStart (Some [[46; 47; 116]]) C05_ex_opts 0);
-   MCall 0 (HWait 1000); MCall 1 (HClose REPROC_STREAM_IN); MDestroy 0; MNew; MCall 1 (HStart (Some [[46; 47; 116]]) C05_ex_opts 0)].
+   MCall 0 (HWait 1000); MRunEx 50 (Some [[46; 47; 116]]) C05_ex_opts 0 {| sk_out := []; sk_err := []; sk_calls := [] |};
+   MCall 1 (HClose REPROC_STREAM_IN); MDestroy 0; MNew; MCall 1 (HStart (Some [[46; 47; 116]]) C05_ex_opts 0)].
 Definition C05_ex_multi (faults : list (Z * positive)) : bool :=
   match (let* ps := run_mops (fun _ => ret tt) [] C05_ex_mops in destroy_all ps) (C05_ex_world faults) with
   | Ret _ w' => match C05_ex_keys w' with [k] => k =? 0 | _ => false end
